@@ -91,7 +91,7 @@ type TAOpts struct {
 	FileHook         func(job *TAJob, param string, p string)      // called for every file a stage writes
 	ExtraFiles       bool                                          // stages also write files not named by outputs
 	FullReset        bool
-	PostProcessCrash int  // 1: crash after post-processing; 2: after the files were moved, before _outs was rewritten
+	PostProcessCrash int  // 1: crash after post-processing; 2: after the files were moved, before _outs was rewritten; 3: (--zip) after _metadata.zip was written, before any archived file was removed
 	RestartAfterFail bool // after a failure: restart once (the injected fault is gone) and continue
 	// SlowJobs: comma separated substrings of job keys; a matching job is finished only when no other
 	// job is pending and the scheduler has nothing left to do without it (directed schedules: "the
@@ -817,6 +817,16 @@ func (r *TARun) stepOnce() (done bool, progress bool) {
 		if r.Opts.PostProcessCrash != 0 && !r.ppCrashed {
 			// mrp dies during / right after post-processing and is restarted
 			r.ppCrashed = true
+			if r.Opts.PostProcessCrash == 3 {
+				// mrp --zip killed right after it had written _metadata.zip: none of the archived files had
+				// been removed yet (the restarted mrp unpacks the archive over the files that are still there)
+				snap, _ := os.MkdirTemp(filepath.Dir(r.PsDir), "zipsnap")
+				copyTree(r.PsDir, snap)
+				r.rt.Config.Zip = true
+				r.ps.ZipMetadata(path.Join(r.PsDir, "_metadata.zip"))
+				copyTree(snap, r.PsDir)
+				os.RemoveAll(snap)
+			}
 			if r.Opts.PostProcessCrash == 2 && savedOuts != nil {
 				// ... after the files were moved but before _outs was rewritten
 				os.WriteFile(outsPath, savedOuts, 0o644)
@@ -1066,4 +1076,29 @@ func (r *TARun) RunTimed(d time.Duration) {
 		r.Final = "hang"
 		r.ErrMsg = string(buf)
 	}
+}
+
+// copyTree copies regular files and symlinks of src into dst (existing files are overwritten).
+func copyTree(src, dst string) {
+	filepath.Walk(src, func(p string, info os.FileInfo, err error) error {
+		if err != nil {
+			return nil
+		}
+		rel, _ := filepath.Rel(src, p)
+		q := filepath.Join(dst, rel)
+		switch {
+		case info.IsDir():
+			os.MkdirAll(q, 0o755)
+		case info.Mode()&os.ModeSymlink != 0:
+			if l, err := os.Readlink(p); err == nil {
+				os.Remove(q)
+				os.Symlink(l, q)
+			}
+		case info.Mode().IsRegular():
+			if b, err := os.ReadFile(p); err == nil {
+				os.WriteFile(q, b, info.Mode().Perm())
+			}
+		}
+		return nil
+	})
 }
